@@ -24,9 +24,35 @@ func isDeny(v string) bool { return v == "term" || v == "hijack" || v == "hijack
 func c14Finder(run *Run, j *histJob) {
 	r, sp := j.res, j.spec
 	replay := map[string]interface{}{"spec": sp, "observed": r.Rec, "done": r.Done}
+	if j.prev != nil {
+		replay["preceded_on_the_same_goroutine_by"] = j.prev
+	}
 	if r.Panicked != "" {
 		run.Fail("C14:panic", "the request worker panicked: "+r.Panicked, replay)
 		return
+	}
+	// every stream starts its first pass at the head of the chain: the first BeforeRoute filter configured must be the first
+	// filter called (before any routing / upstream activity)
+	firstBR := -1
+	for i, f := range sp.Filters {
+		if !f.Send && f.Phase == 0 {
+			firstBR = i
+			break
+		}
+	}
+	if firstBR >= 0 {
+		for _, x := range r.Rec {
+			if x.Kind == "filter.recv" {
+				if x.K != firstBR || x.Code != 0 {
+					run.Fail("C14:chain-not-from-start", fmt.Sprintf("the first filter called is #%d (phase %d) although BeforeRoute filter #%d is configured before it: the stream did not start at the head of its filter chain", x.K, x.Code, firstBR), replay)
+				}
+				break
+			}
+			if x.Kind == "up.check" || x.Kind == "up.new" || x.Kind == "down.hdr" || x.Kind == "worker.done" {
+				run.Fail("C14:chain-not-from-start", fmt.Sprintf("BeforeRoute filter #%d was never called before the request was processed: the stream did not start at the head of its filter chain", firstBR), replay)
+				break
+			}
+		}
 	}
 	denied, term := false, false
 	deniedAt := -1
@@ -164,6 +190,53 @@ func genC14(run *Run) []*Spec {
 	return specs
 }
 
+// pairs of requests served back to back on one goroutine: the pooled filter-chain object of the first (streamfilter's sync.Pool)
+// is handed to the second.  The first ends with the receive cursor parked on a filter (re-match / re-choose returned in a phase
+// where the proxy ignores it, as the last receive pass of the stream) or not; the second has BeforeRoute filters at the head.
+type pairJob struct {
+	a, b   *Spec
+	ra, rb *Result
+}
+
+func genPairs(run *Run) []*pairJob {
+	firsts := []*Spec{
+		// AfterRoute filter #1 asks for re-choose (ignored in that phase); no route -> local 404: the AfterChooseHost pass never runs
+		{Route: "forward", NHosts: 2, NoMatch: true, RouteGlobalMs: 40, Filters: []FilterSpec{{Phase: 0}, {Phase: 1, Verdicts: []string{"rechoose"}}}},
+		// AfterChooseHost filter #2 asks for re-match (ignored in that phase); one-way request
+		{Route: "forward", NHosts: 2, Oneway: true, RouteGlobalMs: 40, Filters: []FilterSpec{{Phase: 0}, {Phase: 1}, {Phase: 2, Verdicts: []string{"rematch"}}}},
+		// same with a direct-response route: ends at ChooseHost with the cursor parked by the AfterRoute filter
+		{Route: "direct", DirectCode: 418, NHosts: 2, RouteGlobalMs: 40, Filters: []FilterSpec{{Phase: 1}, {Phase: 1}, {Phase: 1, Verdicts: []string{"rechoose"}}}},
+		// controls: streams that end with the cursor at 0
+		{Route: "forward", NHosts: 2, Oneway: true, RouteGlobalMs: 40, Filters: []FilterSpec{{Phase: 0}, {Phase: 2}}},
+		{Route: "direct", DirectCode: 418, NHosts: 2, RouteGlobalMs: 40},
+	}
+	seconds := []*Spec{
+		{Route: "forward", NHosts: 2, RouteGlobalMs: 40, Filters: []FilterSpec{{Phase: 0, Code: 403, Verdicts: []string{"hijack"}}}},
+		{Route: "forward", NHosts: 2, RouteGlobalMs: 40, Filters: []FilterSpec{{Phase: 0}, {Phase: 0, Code: 403, Verdicts: []string{"hijack"}}, {Phase: 1}}},
+		{Route: "forward", NHosts: 2, Oneway: true, RouteGlobalMs: 40, Filters: []FilterSpec{{Phase: 0, Verdicts: []string{"term"}}, {Phase: 2}}},
+		{Route: "direct", DirectCode: 204, NHosts: 2, RouteGlobalMs: 40, Filters: []FilterSpec{{Phase: 0, Code: 401, Verdicts: []string{"direct"}}, {Send: true}}},
+	}
+	var out []*pairJob
+	reps := run.N(4, 12)
+	for _, a := range firsts {
+		for _, b := range seconds {
+			for k := 0; k < reps; k++ {
+				out = append(out, &pairJob{a: a, b: b})
+			}
+		}
+	}
+	return out
+}
+
+func runPairs(pairs []*pairJob) {
+	for i, pj := range pairs {
+		pa := prepareHistory(700000+2*i, pj.a)
+		pb := prepareHistory(700000+2*i+1, pj.b)
+		pj.ra = runInline(pa)
+		pj.rb = runInline(pb)
+	}
+}
+
 func c14(args []string) int {
 	run := NewRun("C14", args)
 	run.Sum.Rule = "filter chains through the real proxy and the real streamfilter chain: every chain of one receive filter (3 phases x 8 verdicts) alone and with one send filter (3 verdicts); two-filter chains over all phase pairs x verdict pairs (sampled 1/3 in the quick tier, all in thorough); random chains of 1..5 filters with per-invocation verdict scripts, some with client disconnect / direct-response route / no route / one-way. Verdicts: continue, stop, termination, hijack(+stop), hijack(+continue), direct response, re-match, re-choose. Non-trivial: at least one filter in the chain; distinct by the full description."
@@ -180,5 +253,22 @@ func c14(args []string) int {
 			}
 		}
 	}
+	// pairs through the pooled chain objects
+	initEnv()
+	pairs := genPairs(run)
+	runPairs(pairs)
+	psh := run.NewShard(shardHeader, "paircase", "pair_mismatches proxy_src")
+	for _, pj := range pairs {
+		if pj.ra.Err != "" || pj.rb.Err != "" {
+			fmt.Println("harness error:", pj.ra.Err, pj.rb.Err)
+			return 2
+		}
+		c14Finder(run, &histJob{spec: pj.a, res: pj.ra})
+		c14Finder(run, &histJob{spec: pj.b, res: pj.rb, prev: pj.a})
+		run.Count("pair:"+specKey(pj.a)+specKey(pj.b), true, "pair")
+		psh.Add(fmt.Sprintf("{| pp_first := %s;\n    pp_second := %s |}", coqCase(pj.ra), coqCase(pj.rb)),
+			map[string]interface{}{"first": pj.a, "second": pj.b, "rec_first": pj.ra.Rec, "rec_second": pj.rb.Rec})
+	}
+	psh.Close()
 	return finishProxy(run, jobs, c14Finder, func(sp *Spec) bool { return len(sp.Filters) == 0 })
 }
